@@ -26,7 +26,7 @@ Requirements for each change:
 2. It must need something SPECIFIC to manifest: a particular interleaving, a crash/fault at a particular point, a multi-step sequence of operations, an unusual input or configuration, a boundary value.
 3. It breaks the property as stated above (observable through the public API / observable effects), not some other behaviour.
 4. The existing tests of the affected packages must still pass with the change: run `go build ./... ` and `go test -count=1 ./<affected package>/...` (and packages that directly depend on it if cheap) in {wt} and confirm. If an existing test fails, pick a different change.
-5. Provide a demonstration: a Go test file (placed in the affected package directory of the worktree as `zz_seed_demo_test.go`, or a small program) that FAILS with the change and PASSES without it. Verify both directions yourself (e.g. `git stash` / `git stash pop` inside the worktree, or `git diff > patch; git checkout -- .; run; git apply patch; run`).
+5. Provide a demonstration: a Go test file (placed in the affected package directory of the worktree as `zz_seed_demo_test.go`, or a small program) that FAILS with the change and PASSES without it. Verify both directions yourself (use `git diff > OUT/patch.diff; git apply -R OUT/patch.diff; run; git apply OUT/patch.diff; run` with OUT your own output directory. NEVER use `git stash`: the stash is shared by all worktrees of /repo and other agents work concurrently. Use only file names inside your own directories, never shared names under /tmp. The machine is heavily loaded: timing-sensitive existing tests may flake; re-run those with -p 1 before concluding anything).
 The {n} changes should differ in root cause and in what they need to manifest (do not produce variations of the same edit).
 
 Deliver, for change k = 1..{n}, a directory {outd}/m<k>/ containing:
